@@ -21,3 +21,40 @@ def c05_greedy(w):
     models = w.get("greedy_model_paths") or []
     got = [list(p) for p in (w.get("path") or [])]
     return got in models
+
+
+@classifier("c19_reciprocal_quantile_a_not_reported")
+def c19_recip(w):
+    if w.get("kind") != "reapply-differs" or w.get("fn") != "distance_to_similarity":
+        return False
+    if w.get("method_lower") != "reciprocal" or not w.get("cover_quantile_used") or w.get("explicit_a"):
+        return False
+    # bug-compatible model: first output = 1/(r + D*a*) with a* from the quantile rule; second = 1/(r + D)
+    import math
+    kw = w.get("kwargs") or {}
+    cq = kw.get("cover_quantile")
+    q, target = (cq[0], cq[1]) if isinstance(cq, list) else (cq, 1 - cq)
+
+    def flat(x):
+        if isinstance(x, list):
+            out = []
+            for v in x:
+                out += flat(v)
+            return out
+        return [x]
+    D = sorted(flat(w.get("D")))
+    if not D:
+        return False
+    # numpy's default (linear) quantile
+    pos = q * (len(D) - 1)
+    lo, hi = int(math.floor(pos)), int(math.ceil(pos))
+    qv = D[lo] + (D[hi] - D[lo]) * (pos - lo)
+    r = w.get("r_reported", 1.0)
+    a = (1 - target * r) / (target * qv)
+    Dorig = flat(w.get("D"))[:12]
+    first, second = w.get("first") or [], w.get("second") or []
+
+    def close(x, y):
+        return abs(x - y) <= 1e-9 * max(1.0, abs(x), abs(y))
+    return all(close(f, 1.0 / (r + d * a)) for f, d in zip(first, Dorig)) and \
+        all(close(s2, 1.0 / (r + d)) for s2, d in zip(second, Dorig))
